@@ -230,6 +230,9 @@ def gen(run):
     observe_and_judge(run, cases, 'payload')
 
 
+TWIN_FORMULAS = {'=1+1': 2, '="x"&"y"': 'xy'}
+
+
 def public_path(run):
     """payloads through real files: xlsx -> Parser (safety on/off) -> write_translation -> Executor(class_file)"""
     rng = random.Random(run.seed + 7)
@@ -239,6 +242,10 @@ def public_path(run):
     for i, t in enumerate(texts):
         rows[(0, i)] = repo.AsText(t) if t.startswith('=') else t
         if t.startswith('='):
+            if t in TWIN_FORMULAS:
+                # real formula cells with exactly the same text, one read before the text cell and one after it
+                rows[(2, i)] = t
+                rows[(3 + len([k for k in rows if k[1] == 0 and k[0] >= 3]), 0)] = t
             continue
         if '"' not in t:
             rows[(1, i)] = '="' + t + '"'
@@ -260,6 +267,16 @@ def public_path(run):
                             vals[(c, i)] = ex.get_cell(Cell(0, c, i)).value
                         except Exception as e:  # noqa
                             vals[(c, i)] = f'<raises {type(e).__name__}>'
+            for (c, r0), t in sorted(rows.items()):
+                if c >= 2 and t in TWIN_FORMULAS:
+                    try:
+                        got = ex.get_cell(Cell(0, c, r0)).value
+                    except Exception as e:  # noqa
+                        got = f'<raises {type(e).__name__}>'
+                    ok = got == TWIN_FORMULAS[t] and type(got) is type(TWIN_FORMULAS[t])
+                    run.judge({'in': {'pos': 'formula_twin', 's': t, 'gate': gate, 'mode': 'file', 'at': [c, r0]}, 'obs': str(got), 'kind': 'public_path'}, ok,
+                              clause=f'file path: the formula cell {t} at column {c + 1}, row {r0 + 1} (a text cell holds the same characters) = {got!r}, expected {TWIN_FORMULAS[t]!r}',
+                              part='public_path')
         except BaseException as e:  # noqa
             outcome = repo.outcome_of_exception(e)['o']
         evs, meta = [], []
